@@ -441,3 +441,40 @@ Fixpoint unchecked_fields (f : fmt) (ws : list wfield) (rs : list rfield) : list
 Definition terminal_forgeable (f : fmt) : bool := is_tterminal f && negb (f_tguard f) && negb (term_unreachable f).
 
 Definition is_ok {A} (o : outcome A) : bool := match o with Ok _ => true | _ => false end.
+
+(* ------------------------------------------------------------------------------------------ *)
+(* string lists of stack-ECL files (ANIM / ECLI include lists, sub names): ecl_10.rs write_string_list /
+   read_string_list over BinWrite::write_cstring(_, 1), BinRead::read_cstring_blockwise(1) and align_to(_, 4).
+   A string is the list of bytes actually written (the Shift-JIS encoding), without its terminator. *)
+Definition pad4 (n : Z) : Z := if n mod 4 =? 0 then 0 else 4 - n mod 4.      (* align_to(n, 4) *)
+Fixpoint strings_len (ss : list (list Z)) : Z :=
+  match ss with [] => 0 | s :: t => Z.of_nat (length s) + 1 + strings_len t end.
+Fixpoint write_strings (ss : list (list Z)) : list Z :=
+  match ss with [] => [] | s :: t => s ++ 0 :: write_strings t end.
+(* the padding is a function of the number of bytes written *)
+Definition write_string_list (ss : list (list Z)) : list Z :=
+  write_strings ss ++ repeat 0 (Z.to_nat (pad4 (strings_len ss))).
+
+(* read_cstring_blockwise(1): the bytes before the first 0 *)
+Fixpoint read_cstring (bs : list Z) : option (list Z * list Z) :=
+  match bs with
+  | [] => None
+  | b :: t => if b =? 0 then Some ([], t)
+              else match read_cstring t with Some (s, r) => Some (b :: s, r) | None => None end
+  end.
+Fixpoint read_strings (n : nat) (bs : list Z) : option (list (list Z) * list Z) :=
+  match n with
+  | O => Some ([], bs)
+  | S k => match read_cstring bs with
+           | None => None
+           | Some (s, r) => match read_strings k r with Some (ss, r') => Some (s :: ss, r') | None => None end
+           end
+  end.
+Definition read_string_list (n : nat) (bs : list Z) : option (list (list Z) * list Z) :=
+  match read_strings n bs with
+  | None => None
+  | Some (ss, r) => match take (Z.to_nat (pad4 (strings_len ss))) r with
+                    | Some (_, r') => Some (ss, r')
+                    | None => None
+                    end
+  end.
